@@ -1,5 +1,6 @@
 import RzilVerif.Model.DriverText
 import RzilVerif.Model.ILSem
+import RzilVerif.Lemmas.LayoutPerm
 /-!
 # C16 — both output layouts denote the same effect
 
@@ -69,5 +70,160 @@ example :
        .decl "RzILOpEffect *" "s" (.id "e"),
        .ret (.id "s")] } := by
   rfl
+
+/-! ## The layout theorem
+
+`hoistPures` (Lemmas/LayoutPerm.lean) is the EXEC_CLASSES order of a READ_STATEMENTS item list: all inlined
+pure/bool declarations in their order (block "EXEC"), then everything else in its order (block "WRITE": effect
+declarations, and the operand declarations, comments and the return, which `denoteIL` ignores or finds anyway).
+Under the decidable side condition `LayoutWF` the hoisted body denotes the SAME term.
+`LayoutWF items = namesDistinct items && noForwardRef items && puresAvoidEffects items`:
+* inlined declarations declare pairwise distinct names,
+* no inlined right-hand side mentions a name declared by a LATER inlined declaration,
+* no pure/bool right-hand side mentions a name declared by an effect declaration anywhere.
+The proof moves each non-pure item to the right over the pure declarations that follow it, one adjacent swap of
+two independent declarations at a time (`buildEnvIL_swap`). -/
+
+/-- Hoisting under the minimal condition `LayoutIndep` (every non-pure item is independent of each pure declaration
+    that follows it). -/
+theorem hoist_denote_of_indep (b : Body) (h : LayoutIndep b.items = true) :
+    denoteIL { b with items := hoistPures b.items } = denoteIL b := by
+  simp only [denoteIL, returned_hoistPures]
+  cases returned b.items with
+  | none => rfl
+  | some r =>
+    simp only [Option.bind_eq_bind, Option.bind_some]
+    rw [Term.subst_congr (buildEnvIL_hoist b.items h []) r]
+
+/-- C16, layout part: the EXEC_CLASSES arrangement of a well-formed READ_STATEMENTS body denotes the same term. -/
+theorem hoist_denote (b : Body) (hwf : LayoutWF b.items = true) :
+    denoteIL { b with items := hoistPures b.items } = denoteIL b :=
+  hoist_denote_of_indep b (layoutIndep_of_layoutWF b.items hwf)
+
+/-- … hence the same behaviour from every state, for every fuel and interpretation of macros and sub-routines. -/
+theorem hoist_exec (b : Body) (hwf : LayoutWF b.items = true) :
+    ∀ (ms : MacroSem) (subs : SubEnv) (fuel : Nat) (σ : MState) (ea eb : ILEffect),
+      bodyEffect { b with items := hoistPures b.items } = some ea → bodyEffect b = some eb →
+      execIL ms subs fuel ea σ = execIL ms subs fuel eb σ :=
+  denote_eq_exec _ _ (hoist_denote b hwf)
+
+/-- `denoteIL` only depends on the inlined declarations (in order) and the returned term. -/
+theorem denoteIL_of_ilDecls (a b : Body) (hd : ilDecls a.items = ilDecls b.items)
+    (hr : returned a.items = returned b.items) : denoteIL a = denoteIL b := by
+  simp only [denoteIL, buildEnvIL_eq_envOfDecls, hd, hr]
+
+/-- What the driver request `(layout-rel <RS text> <EC text>)` buys (Model/DriverLayout.lean): if it answers
+    `(wf 1) (hoist-equal 1)` for the parsed bodies, both texts denote the same term — whatever comments and operand
+    declarations they contain and wherever these are placed. -/
+theorem layout_rel_sound (rs ec : Body) (hwf : LayoutWF rs.items = true)
+    (heq : hoistEqual rs.items ec.items = true) : denoteIL ec = denoteIL rs := by
+  simp only [hoistEqual, Bool.and_eq_true] at heq
+  have h1 := declsEqb_sound _ _ heq.1
+  have h2 := optTermEqb_sound _ _ heq.2
+  rw [← hoist_denote rs hwf]
+  exact denoteIL_of_ilDecls ec { rs with items := hoistPures rs.items } h1.symm h2.symm
+
+/-- The test is complete for the intended case: the hoisted list itself passes. -/
+theorem hoistEqual_self (items : List Item) : hoistEqual items (hoistPures items) = true := by
+  simp only [hoistEqual, Bool.and_eq_true, declsEqb_refl, true_and]
+  cases returned (hoistPures items) with
+  | none => rfl
+  | some t => exact Term.eqb_refl t
+
+/-! ### Non-vacuity and necessity of the hypotheses (kernel-checked) -/
+
+/-- READ_STATEMENTS layout of two statements: each one pure/bool declaration directly in front of the effect
+    declaration that uses it (the second also re-reads `a` through `DUP`), operands and comments interleaved. -/
+def exRS : List Item :=
+  [.comment " statement 1",
+   .decl "const HexOp *" "Rd_op" (.app "ISA2REG" [.id "hi", .chr "d", .id "false"]),
+   .decl "RzILOpPure *" "a" (.app "ADD" [.id "Rs", .app "SN" [.num 32, .num 1]]),
+   .decl "RzILOpEffect *" "e1" (.app "WRITE_REG" [.id "bundle", .id "Rd_op", .id "a"]),
+   .comment " statement 2",
+   .decl "RzILOpBool *" "c" (.app "ULT" [.app "DUP" [.id "a"], .id "Rt"]),
+   .decl "RzILOpEffect *" "e2" (.app "BRANCH" [.id "c", .app "JMP" [.id "Rt"], .app "EMPTY" []]),
+   .ret (.app "SEQN" [.num 2, .id "e1", .id "e2"])]
+
+example : LayoutWF exRS = true := by decide +kernel
+
+/-- its EXEC_CLASSES arrangement: the two value declarations first -/
+example : hoistPures exRS =
+  [.decl "RzILOpPure *" "a" (.app "ADD" [.id "Rs", .app "SN" [.num 32, .num 1]]),
+   .decl "RzILOpBool *" "c" (.app "ULT" [.app "DUP" [.id "a"], .id "Rt"]),
+   .comment " statement 1",
+   .decl "const HexOp *" "Rd_op" (.app "ISA2REG" [.id "hi", .chr "d", .id "false"]),
+   .decl "RzILOpEffect *" "e1" (.app "WRITE_REG" [.id "bundle", .id "Rd_op", .id "a"]),
+   .comment " statement 2",
+   .decl "RzILOpEffect *" "e2" (.app "BRANCH" [.id "c", .app "JMP" [.id "Rt"], .app "EMPTY" []]),
+   .ret (.app "SEQN" [.num 2, .id "e1", .id "e2"])] := by rfl
+
+/-- the theorem applies (and the denoted term is a genuine one, not `none`) -/
+example : denoteIL { header := none, items := hoistPures exRS } = denoteIL { header := none, items := exRS } :=
+  hoist_denote { header := none, items := exRS } (by decide +kernel)
+
+example : denoteIL { header := none, items := exRS } =
+    some (.app "SEQN" [.num 2,
+      .app "WRITE_REG" [.id "bundle", .id "Rd_op", .app "ADD" [.id "Rs", .app "SN" [.num 32, .num 1]]],
+      .app "BRANCH" [.app "ULT" [.app "ADD" [.id "Rs", .app "SN" [.num 32, .num 1]], .id "Rt"],
+                     .app "JMP" [.id "Rt"], .app "EMPTY" []]]) := by rfl
+
+/-- `namesDistinct` is needed: one name declared twice — hoisting makes the first effect read the second value. -/
+def exDupName : List Item :=
+  [.decl "RzILOpPure *" "a" (.id "X"),
+   .decl "RzILOpEffect *" "e1" (.app "W" [.id "a"]),
+   .decl "RzILOpPure *" "a" (.id "Y"),
+   .decl "RzILOpEffect *" "e2" (.app "W" [.id "a"]),
+   .ret (.app "SEQN" [.num 2, .id "e1", .id "e2"])]
+
+example : LayoutWF exDupName = false := by decide +kernel
+example : namesDistinct exDupName = false := by decide +kernel
+example : denoteIL { header := none, items := hoistPures exDupName } ≠ denoteIL { header := none, items := exDupName } := by
+  intro h
+  have h' : some (Term.app "SEQN" [.num 2, .app "W" [.id "Y"], .app "W" [.id "Y"]]) =
+            some (Term.app "SEQN" [.num 2, .app "W" [.id "X"], .app "W" [.id "Y"]]) := h
+  simp at h'
+
+/-- … also when the two other conditions hold: an effect and a later pure declaration share a name. -/
+def exDupName2 : List Item :=
+  [.decl "RzILOpEffect *" "a" (.app "W" [.id "Rs"]),
+   .decl "RzILOpPure *" "a" (.id "X"),
+   .ret (.id "a")]
+
+example : namesDistinct exDupName2 = false ∧ noForwardRef exDupName2 = true ∧ puresAvoidEffects exDupName2 = true := by
+  decide +kernel
+example : denoteIL { header := none, items := hoistPures exDupName2 } ≠ denoteIL { header := none, items := exDupName2 } := by
+  intro h
+  have h' : some (Term.app "W" [.id "Rs"]) = some (Term.id "X") := h
+  simp at h'
+
+/-- `noForwardRef` is needed: an effect mentions a name that is only declared LATER (so it is left alone by
+    `denoteIL`); after hoisting the declaration comes first and is inlined. -/
+def exForward : List Item :=
+  [.decl "RzILOpEffect *" "e1" (.app "W" [.id "x"]),
+   .decl "RzILOpPure *" "x" (.id "K"),
+   .ret (.id "e1")]
+
+example : namesDistinct exForward = true ∧ noForwardRef exForward = false ∧ puresAvoidEffects exForward = true := by
+  decide +kernel
+example : denoteIL { header := none, items := hoistPures exForward } ≠ denoteIL { header := none, items := exForward } := by
+  intro h
+  have h' : some (Term.app "W" [.id "K"]) = some (Term.app "W" [.id "x"]) := h
+  simp at h'
+
+/-- `puresAvoidEffects` is needed: a "pure" declaration that consumes an effect name cannot be moved in front of it. -/
+def exPureUsesEffect : List Item :=
+  [.decl "RzILOpEffect *" "e" (.app "W" [.id "Rs"]),
+   .decl "RzILOpPure *" "p" (.app "F" [.id "e"]),
+   .decl "RzILOpEffect *" "r" (.app "G" [.id "p"]),
+   .ret (.id "r")]
+
+example : namesDistinct exPureUsesEffect = true ∧ noForwardRef exPureUsesEffect = true ∧
+    puresAvoidEffects exPureUsesEffect = false := by
+  decide +kernel
+example : denoteIL { header := none, items := hoistPures exPureUsesEffect } ≠
+    denoteIL { header := none, items := exPureUsesEffect } := by
+  intro h
+  have h' : some (Term.app "G" [.app "F" [.id "e"]]) = some (Term.app "G" [.app "F" [.app "W" [.id "Rs"]]]) := h
+  simp at h'
 
 end Rzil
